@@ -170,6 +170,45 @@ pub fn run(cfg: &Cfg, out: &mut Out) {
                 it = n;
             }
             out.line("c01.miri_use", "1", &acc.to_string(), "-", "-");
+            // rev() of every multi-field iterator, taken part-way, then stepped from both ends
+            // (the Miri build randomises struct layouts: a reversed twin is a distinct struct)
+            let mut acc = 0u32;
+            macro_rules! rev_both {
+                ($it:expr, $val:expr) => {{
+                    let it = $it;
+                    if let Some((x, n)) = it.copy().next() {
+                        acc = acc.wrapping_add($val(x));
+                        let mut r = n.rev();
+                        let mut front = true;
+                        loop {
+                            let o = if front { r.copy().next() } else { r.copy().next_back() };
+                            match o {
+                                Some((y, nr)) => {
+                                    acc = acc.wrapping_mul(3).wrapping_add($val(y));
+                                    r = nr;
+                                    front = !front;
+                                }
+                                None => break,
+                            }
+                        }
+                        let back = r.rev();
+                        if let Some((z, _)) = back.next() {
+                            acc = acc.wrapping_add($val(z));
+                        }
+                    }
+                }};
+            }
+            let sl = |c: &[u16]| c.iter().map(|x| *x as u32).sum::<u32>() + c.len() as u32;
+            rev_both!(konst::slice::iter(&arr), |x: &u16| *x as u32);
+            rev_both!(konst::slice::iter_copied(&arr), |x: u16| x as u32);
+            rev_both!(konst::slice::windows(&arr, 2), sl);
+            rev_both!(konst::slice::chunks(&arr, 2), sl);
+            rev_both!(konst::slice::rchunks(&arr, 2), sl);
+            rev_both!(konst::slice::chunks_exact(&arr, 2), sl);
+            rev_both!(konst::slice::rchunks_exact(&arr, 2), sl);
+            rev_both!(konst::slice::array_chunks::<u16, 2>(&arr), |c: &[u16; 2]| c[0] as u32 + c[1] as u32);
+            rev_both!(konst::slice::rchunks(&z, 3), |c: &[()]| c.len() as u32);
+            out.line("c01.miri_use", "8", &acc.to_string(), "-", "-");
             let mut m = [1u16, 2, 3, 4, 5, 6];
             for i in [0usize, 1, 3, 6, 9, usize::MAX] {
                 let (a, b) = konst::slice::split_at_mut(&mut m, i);
